@@ -39,7 +39,7 @@ func init() { Register(c01{}) }
 func (c01) ID() string { return "C01" }
 func (c01) NRuns(tier string) int {
 	if tier == "thorough" {
-		return 300000
+		return 2000000
 	}
 	return 3000
 }
